@@ -22,6 +22,12 @@ def gen_const(name, default):
         return default
 
 
+def stage_preload(i):
+    """preload of stage i (vr_init): 0 for the up-sampling stage -1, 2*HALF_FIR_LEN_2 for stage 0, 3*HALF_FIR_LEN_2/2 above"""
+    h2 = gen_const("halfFirLen2", 120)
+    return 0 if i < 0 else 2 * h2 if i == 0 else 3 * h2 // 2
+
+
 def fade_len():
     """AL(fade_coefs) - 1: fade_len right after a stage switch; it falls by 2 per output frame"""
     return gen_const("fadeLen", 1024)
@@ -171,7 +177,7 @@ def scan_model(ops, mres):
     fails, F35), of the first op during which a stream runs backwards, of the first op whose stage switch left-shifts a
     negative value (the F14 situation), of a first request with slew_len > 0 made before any ratio was set (dropped:
     the engine starts at the declared maximum), and the number of stage switches."""
-    info = dict(f13=None, wild=None, shl=None, mis=None, first_dropped=None, nsw=0, sw_in_slew=False, n_f13=0)
+    info = dict(f13=None, wild=None, shl=None, mis=None, first_dropped=None, nsw=0, sw_in_slew=False, n_f13=0, under=None, max_sw=0)
     prev = None
     for n, (o, res) in enumerate(zip(ops, mres)):
         t = o.split()
@@ -190,6 +196,10 @@ def scan_model(ops, mres):
                 info["wild"] = n
             if s.mis and info["mis"] is None:
                 info["mis"] = n
+            info["max_sw"] = max(info["max_sw"], s.gsw)
+            # F36: a half-band stage (index j >= 1: entry j + 1 of occ=) left with fewer samples than its preload
+            if info["under"] is None and any(o[0] < stage_preload(j - 1) for j, o in enumerate(s.occ) if j >= 2):
+                info["under"] = n
             if s.gshl and info["shl"] is None:
                 info["shl"] = n
             if s.gsw:
